@@ -1886,7 +1886,6 @@ class OS2Field(Statement):
             "WidthClass",
             "LowerOpSize",
             "UpperOpSize",
-            "FamilyClass",
         )
         ranges = ("UnicodeRange", "CodePageRange")
         keywords = dict([(x.lower(), [x, str]) for x in numbers])
